@@ -277,7 +277,9 @@ def check_path(P, ctx, rec, op, nbits, nchans, prm, label, budget, which="viol",
         Ctx.cur = None
         return 0
     conds = [c for _, c in viol]
+    clean = False
     if not conds or ctx.check(z3.Or(conds)) == z3.unsat:
+        clean = True
         for name, _ in viol:
             P.obligation(f"{label}/{name}", "holds")
     else:
@@ -290,6 +292,13 @@ def check_path(P, ctx, rec, op, nbits, nchans, prm, label, budget, which="viol",
             src = ("import sys, json\nfrom symx.concrete import " + driver + "\n"
                    f"sys.exit({driver}.main(json.loads({json.dumps(json.dumps(params))})))\n")
             P.violation(f"{label}-{name}".replace("/", "-").replace(":", "-").replace(" ", "_"), f"{name} with {params}", src, model=params)
+    if budget[0] > 0 and which != "viol" and not rec.err and clean:
+        cz = concretize(ctx, rec, op, nbits, nchans, prm)
+        if cz is not None:
+            params = cz[0]
+            params["check"] = which
+            budget[0] -= 1
+            P.witness(driver, params, f"{label}-path-witness".replace("/", "-").replace(":", "-").replace(" ", "_"), label)
     if budget[0] > 0 and which == "viol":
         cz = concretize(ctx, rec, op, nbits, nchans, prm)
         if cz is not None:
